@@ -237,6 +237,7 @@ def layer3(rep, prog, rule):
             n += 1
             rep.saw(b.name)
             c = tm.operand(s["rv"]["ops"][1])
+            c = _resolve_upvars(prog, b, c)
             cc = T.canon(c)
             kind = None
             if cc in (("p", "class"), ("up", "class")):
@@ -250,25 +251,40 @@ def layer3(rep, prog, rule):
                 for x in calls:
                     if x[1] in ALLOWED_SRC_CALLS:
                         kind = "result of " + x[1].split("::")[-1]
-                if kind is None and cc[0] == "f" and cc[2] == "class" and cc[1] == ("up", "reservation"):
-                    kind = "class of the reservation returned by steal_any"
+
             key = "%s|tuple" % b.name
             rep.check(kind is not None, rule, key, kind or "", "the reported class has an unreviewed source: " + T.show(c), s["span"])
     rep.floor(rule, "(FrameId, Class) constructors", n, 5)
-    # `reservation` captured by steal_local's closure is steal_any's result
-    fn = "llfree::llfree::LLFree::steal_local"
-    b = lib.need_body(prog, fn)
-    tm = T.Terms(b, prog)
-    for bi, si, s in b.stmts():
-        if s["k"] == "assign" and s["rv"]["k"] == "aggregate" and s["rv"]["kind"]["k"] == "closure":
-            caps = [tm.operand(o) for o in s["rv"]["ops"]]
-            cb = prog.body(s["rv"]["kind"]["def"])
-            names = [u["name"] for u in cb.j.get("upvars", [])] if cb else []
-            for nme, cap in zip(names, caps):
-                if nme == "reservation":
-                    rep.check(any(x[0] == "call" and x[1] == "llfree::local::Locals::steal_any" for x in T.walk(cap)),
-                              rule, "%s|reservation-capture" % fn, "captured reservation is steal_any's result",
-                              "captured reservation does not come from steal_any: " + T.show(cap), s["span"])
+
+
+def _resolve_upvars(prog, b, t):
+    """For a closure body: replaces ('up', name[, field path]) by the term captured in the defining function."""
+    if b.kind != "closure":
+        return t
+    parent = prog.body(b.name.rsplit("::{closure#", 1)[0])
+    if parent is None:
+        return t
+    ptm = T.Terms(parent, prog)
+    caps = None
+    for bi, si, s in parent.stmts():
+        if s["k"] == "assign" and s["rv"]["k"] == "aggregate" and s["rv"]["kind"]["k"] == "closure" and s["rv"]["kind"]["def"] == b.name:
+            caps = [ptm.operand(o) for o in s["rv"]["ops"]]
+    if caps is None:
+        return t
+    names = [u["name"] for u in b.j.get("upvars", [])]
+    table = {}
+    for n, cpt in zip(names, caps):
+        table[T.canon(T._upvar_term(n))] = _resolve_upvars(prog, parent, T.strip_refs(cpt))
+
+    def go(x):
+        if not isinstance(x, tuple) or not x:
+            return x
+        if isinstance(x[0], str):
+            cx = T.canon(x)
+            if cx in table:
+                return table[cx]
+        return tuple(go(y) if isinstance(y, tuple) else y for y in x)
+    return go(t)
 
 
 def run(rep, programs):
